@@ -160,6 +160,11 @@ func c05Alphabet(t c05Target) []([]mOp) {
 		one(mOp{Kind: "removefiltered", Pt: pt, Fi: 2, Fvs: []string{R[0][2]}})
 		one(mOp{Kind: "removefiltered", Pt: pt, Fi: 0, Fvs: []string{"", "", R[1][2]}})
 	}
+	// a filter that is WIDER than the rules, its surplus values empty (DeleteRolesForUser(user, "")
+	// style calls): the surplus is a wildcard, the rules are selected by the leading values
+	wide := append(append([]string{R[0][0]}, make([]string, len(R[0])-1)...), "")
+	one(mOp{Kind: "removefiltered", Pt: pt, Fi: 0, Fvs: wide})
+	one(mOp{Kind: "removefiltered", Pt: pt, Fi: 1, Fvs: append(append([]string{R[0][1]}, make([]string, len(R[0])-2)...), "", "")})
 	one(mOp{Kind: "clear"})
 	one(mOp{Kind: "load"})
 	al = append(al, []mOp{{Kind: "save"}, {Kind: "load"}})
